@@ -9,7 +9,52 @@ LEVEL = 'other'
 EXPLANATION = __doc__
 
 
-def field_reads(facts, field):
+def _mentions(x, local):
+    """number of places rooted at `local` anywhere in a statement / terminator"""
+    if isinstance(x, dict):
+        n = 1 if ('l' in x and 'p' in x and x['l'] == local) else 0
+        return n + sum(_mentions(v, local) for v in x.values())
+    if isinstance(x, list):
+        return sum(_mentions(v, local) for v in x)
+    return 0
+
+
+def is_flag_copy(b, stmt, arg_index=5):
+    """`tmp = copy x.is_exterior_ring` whose only use is the is_exterior_ring argument of SweepEvent::new / new_rc: the flag is
+    handed on to the event made from x (a divided segment inheriting it), nothing is decided by it."""
+    from facts import callee_name
+    dst = stmt['place']
+    if dst['p'] or stmt['rv']['k'] != 'use':
+        return False
+    loc = dst['l']
+    total = 0
+    for _, st in all_statements(b, cleanup=True):
+        total += _mentions({k: v for k, v in st.items() if k != 'line'}, loc)
+    ok_uses = 0
+    for bl in b.blocks:
+        t = bl['term']
+        m = _mentions(t, loc)
+        if not m:
+            continue
+        total += m
+        if t['k'] in ('call', 'tailcall'):
+            cn = callee_name(t)
+            if 'SweepEvent' in cn and (cn.endswith('::new_rc') or cn.endswith('::new')):
+                for ai, a in enumerate(t['args']):
+                    if a['k'] in ('copy', 'move') and a['place']['l'] == loc and not a['place']['p'] and ai == arg_index:
+                        ok_uses += 1
+    # the defining assignment mentions it once; storage markers are not statements of kind assign but may mention it
+    others = 0
+    for _, st in all_statements(b, cleanup=True):
+        if st is stmt:
+            continue
+        if st['k'] == 'assign':
+            others += _mentions(st, loc)
+    term_mentions = sum(_mentions(bl['term'], loc) for bl in b.blocks)
+    return ok_uses >= 1 and others == 0 and term_mentions == ok_uses
+
+
+def field_reads(facts, field, passthrough=None):
     out = []
     for name, b in facts.bodies.items():
         if (b.j.get('impl') or {}).get('auto_derived'):
@@ -34,6 +79,9 @@ def field_reads(facts, field):
                 return [o['place'] for o in ops if o and o['k'] in ('copy', 'move')]
             for pl in places(st['rv']):
                 if any(e['k'] == 'field' and e['name'] == field for e in pl['p']):
+                    if passthrough is not None and is_flag_copy(b, st):
+                        passthrough.append((name, b.loc(st['line'])))
+                        continue
                     out.append((name, b.loc(st['line'])))
     return out
 
@@ -46,7 +94,10 @@ def run(ctx, rep):
     witness.check(ctx, rep, ['WPairings', 'WPairingsNeg'], rule='W-types')
     # W-winding: nothing in the default configuration reads the ring-orientation flag or computes a ring orientation
     f = ctx.facts()
-    reads = field_reads(f, 'is_exterior_ring')
+    copies = []
+    reads = field_reads(f, 'is_exterior_ring', passthrough=copies)
+    for (name, loc) in copies:
+        rep.ob('W-winding', 'flag-copied-to-new-event:%s' % name, True, '%s hands is_exterior_ring on to a new event (only use of the value)' % name, loc=loc)
     for (name, loc) in reads:
         rep.ob('W-winding', 'reader:%s' % name, False, '%s reads is_exterior_ring: operands must be interpreted by edge parity only' % name,
                loc=loc, reason='inventory')
